@@ -1,10 +1,12 @@
 //! vf-exec: checks that only need `datafusion-execution` (C17 memory pools, C40a file caches).
 mod c17;
+mod c17c;
 mod c40a;
 
 fn main() {
     vf_kit::dispatch! {
         "c17" => c17::C17,
+        "c17c" => c17c::C17c,
         "c40a" => c40a::C40a,
     }
 }
